@@ -228,11 +228,32 @@ func ruleSeenAsksStore(r *core.Reporter) {
 		n++
 		r.Analysed(fn)
 		key := core.FuncName(fn) + "/asks-store"
-		isGet := func(x ssa.Instruction) bool { return x == get }
-		if ret, skip := ir.PathExists([]ir.Pt{ir.Entry(fn)}, ir.Opts{Stop: isGet}, ir.IsExit); skip {
-			r.Violated(key, p.InstrPos(ret), "the seencheck lookup can answer without asking the database (a return is reachable before DB.Get): whatever decides that — a cache, a counter, a prefilter — is empty after a restart on the same job directory, so every URL recorded by the previous run is reported as never seen and fetched again")
+		// the question to the database is not conditional on anything but loop bounds and error checks: a guard on
+		// other state (a map or sync.Map hit, a counter) is a second, volatile source of truth
+		bad := ""
+		for _, ii := range ir.Ifs(fn) {
+			for _, t := range []bool{true, false} {
+				if !ir.OnlyVia(ir.Entry(fn), get, ii.If.Block(), ii.EdgeWhen(t)) {
+					continue
+				}
+				a := ii.Atom
+				isLen := func(v ssa.Value) bool {
+					c, ok := v.(*ssa.Call)
+					return ok && ir.CallName(c.Common()) == "builtin.len"
+				}
+				switch {
+				case a.V == nil && (ir.IsNilConst(a.X) || ir.IsNilConst(a.Y)): // err / nil checks
+				case a.V == nil && (isLen(a.X) || isLen(a.Y)): // loop bound
+				case a.V == nil && a.Op == token.LSS: // index loops
+				default:
+					bad = describeAtom(a)
+				}
+			}
+		}
+		if bad != "" {
+			r.Violated(key, p.InstrPos(get), "the seencheck only asks the database when %s: whatever that state is — a cache, a counter, a prefilter — it is empty after a restart on the same job directory, so every URL recorded by the previous run is reported as never seen and fetched again", bad)
 		} else {
-			r.Held(key, 1, "every answer of the lookup follows DB.Get")
+			r.Held(key, 1, "DB.Get is not conditional on any other state")
 		}
 	}
 	r.Floor("seencheck lookups (DB.Get callers)", n, 1)
